@@ -191,6 +191,8 @@ pub enum Placement {
     Eagain(usize, usize),
     /// sparse random faults: (seed, per-mille per call)
     Random(u64, u64),
+    /// descriptor capacity (EMFILE whenever that many descriptors are open)
+    FdCap(usize),
 }
 
 impl Placement {
@@ -201,6 +203,7 @@ impl Placement {
             Placement::Sticky(s) => json!(["sticky", s]),
             Placement::Eagain(i, k) => json!(["eagain", i, k]),
             Placement::Random(s, p) => json!(["random", s, p]),
+            Placement::FdCap(n) => json!(["fdcap", n]),
         }
     }
     pub fn from_json(v: &Value) -> Placement {
@@ -212,6 +215,7 @@ impl Placement {
             Some("sticky") => Placement::Sticky(v[1].as_u64().unwrap_or(0) as usize),
             Some("eagain") => Placement::Eagain(v[1].as_u64().unwrap_or(0) as usize, v[2].as_u64().unwrap_or(1) as usize),
             Some("random") => Placement::Random(v[1].as_u64().unwrap_or(0), v[2].as_u64().unwrap_or(20)),
+            Some("fdcap") => Placement::FdCap(v[1].as_u64().unwrap_or(0) as usize),
             _ => Placement::None,
         }
     }
@@ -222,6 +226,7 @@ impl Placement {
             Placement::Single(s, f) => p.script.push(Dec { step: *s, fault: Some(f.clone()), ..Default::default() }),
             Placement::Sticky(s) => p.sticky = Some((*s, libc::EMFILE)),
             Placement::Eagain(i, k) => p.eagain = Some((*i, *k)),
+            Placement::FdCap(n) => p.fd_cap = Some(*n),
             Placement::Random(seed, pm) => {
                 p.seeded = Some(crate::sup::Seeded { seed: *seed, p_switch: 0, p_attack: 0, p_fault: *pm, max_attacks: 0, pct_depth: 0 })
             }
@@ -245,6 +250,12 @@ pub fn scenario_case(sc: &Scenario, uni: &UniCfg, fresh: bool, pl: &Placement) -
 /// *last* operation of the scenario (the earlier ones are set-up).
 pub fn placements(out: &RunOut, target_op: usize) -> Vec<Placement> {
     let mut v = Vec::new();
+    // descriptor capacities from "nothing more can be opened" up to 13 spare descriptors
+    if let Some(r) = out.records.iter().find(|r| r.idx == target_op) {
+        for k in 0..14 {
+            v.push(Placement::FdCap(r.fds_before.len() + k));
+        }
+    }
     let mut n_openat2 = 0;
     let mut openat2_before = 0;
     for ev in &out.trace {
